@@ -263,6 +263,111 @@ def finding_cases():
     ]
 
 
+CUSTOM_CODES = ["0.000", "0.0000", "yyyy-mm-dd", "yyyy-mm-dd hh:mm", "#,##0.00_-", "\"$\"#,##0.00_-", "[Red]0.00;[Blue]-0.00",
+                "0.00 \"a&b <c>\"", "0.0\" m\"", "0.000\" kg\""]
+
+
+def normalize(case):
+    """Script form the trace specification expects: every step names its workbook ("w", default 1), Init says how many
+    workbooks there are, a number format is [{"code", "id": 0}] (a format made through the API carries no table id)."""
+    for st in case["steps"]:
+        if st["a"] == "Init":
+            st.setdefault("n", 1)
+        st.setdefault("w", 1)
+        if st["a"] == "Assign":
+            for k in ("cells", "rows", "cols"):
+                for x in st[k]:
+                    nf = x["sty"]["numFmt"]
+                    if nf and isinstance(nf[0], str):
+                        x["sty"]["numFmt"] = [{"code": nf[0], "id": 0}]
+    return case
+
+
+def cell_assign(w, styles_at):
+    return {"a": "Assign", "w": w, "cells": [{"r": r, "c": c, "sty": s} for (r, c), s in styles_at], "rows": [], "cols": []}
+
+
+def imp(w, v, items):
+    return {"a": "Import", "w": w, "v": v,
+            "items": [{"k": k, "r": r, "c": c, "r2": r2, "c2": c2} for (k, r, c, r2, c2) in items]}
+
+
+def rounds(w, n=2):
+    return [{"a": "Save", "w": w}, {"a": "Reload", "w": w}] * n
+
+
+def import_examples():
+    """Copying cell formats between workbook objects (a template and a workbook under test): a Style read from a file
+    carries the ids of that file's tables; the receiving workbook has other content under the same ids."""
+    m, kg, day = with_(numFmt='0.0" m"'), with_(numFmt='0.000" kg"'), with_(numFmt="yyyy-mm-dd")
+    verd = with_(font=font("Verdana", "9", bold=True), fill={"pattern": "solid", "fg": col("FF112233"), "bg": dict(NOC)}, numFmt='0.000" kg"')
+    aria = with_(font=font("Arial", "12"), fill={"pattern": "solid", "fg": col(theme=4), "bg": dict(NOC)}, numFmt='0.0" m"')
+    out = []
+    # 1: the template is saved and loaded (its format has id 176); the fresh workbook has its own custom format (also 176)
+    out.append([{"a": "Init", "n": 2}, cell_assign(2, [((1, 1), kg)])] + rounds(2, 1) +
+               [cell_assign(1, [((1, 1), m)]), imp(1, 2, [("cell", 2, 1, 1, 1)])] + rounds(1, 2))
+    # 2: the reverse direction: from the loaded workbook under test into a fresh template that has its own format
+    out.append([{"a": "Init", "n": 2}, cell_assign(1, [((1, 1), m)])] + rounds(1, 1) +
+               [cell_assign(2, [((1, 1), kg)]), imp(2, 1, [("cell", 1, 2, 1, 1)])] + rounds(2, 2))
+    # 3: both were loaded from files; the same ids hold the two formats / fonts / fills in opposite order; both directions
+    out.append([{"a": "Init", "n": 2}, cell_assign(1, [((1, 1), aria), ((2, 1), verd), ((3, 1), day)]),
+                cell_assign(2, [((1, 1), verd), ((2, 1), aria)])] + rounds(1, 1) + rounds(2, 1) +
+               [imp(1, 2, [("cell", 1, 2, 1, 1), ("cell", 2, 2, 2, 1)]), imp(2, 1, [("cell", 1, 2, 1, 1), ("cell", 3, 2, 3, 1)])] +
+               rounds(1, 2) + rounds(2, 2))
+    # 4: into a row and a column; the importing workbook gets its own format only after the import, on an earlier cell
+    out.append([{"a": "Init", "n": 2}, cell_assign(2, [((1, 1), kg), ((1, 2), verd)])] + rounds(2, 1) +
+               [imp(1, 2, [("row", 5, 1, 1, 1), ("col", 1, 4, 1, 2), ("cell", 9, 9, 1, 1)]), cell_assign(1, [((1, 1), m)])] +
+               rounds(1, 2))
+    # 5: import, save, reload, import again from the (meanwhile re-saved) template
+    out.append([{"a": "Init", "n": 2}, cell_assign(2, [((1, 1), kg), ((2, 1), day)]), cell_assign(1, [((1, 1), m)])] +
+               rounds(2, 1) + [imp(1, 2, [("cell", 1, 2, 1, 1)])] + rounds(1, 1) + rounds(2, 1) +
+               [imp(1, 2, [("cell", 1, 3, 2, 1)]), imp(2, 1, [("cell", 3, 1, 1, 1)])] + rounds(1, 1) + rounds(2, 1))
+    return [{"steps": s} for s in out]
+
+
+def import_case(rng, kf, n1, n2):
+    """Two workbooks with their own styles (custom number formats in different orders, so that equal ids mean different
+    formats), saves / reloads and style imports in both directions in a random interleaving."""
+    def styles(n):
+        out = distinct_styles(rng, n, kf)
+        for s in out:
+            if rng.random() < 0.6:
+                s["numFmt"] = [rng.choice(CUSTOM_CODES)]
+        return out
+    pos = {1: [], 2: []}
+    steps = [{"a": "Init", "n": 2}]
+    for w, n in ((1, n1), (2, n2)):
+        at = []
+        for i, s in enumerate(styles(n)):
+            p = (i // 4 + 1, i % 4 + 1)
+            at.append((p, s))
+            pos[w].append(p)
+        if at:
+            steps.append(cell_assign(w, at))
+    saved = {1: False, 2: False}
+    nimp = 0
+    for _ in range(rng.randint(3, 9)):
+        k = rng.random()
+        w = rng.choice([1, 2])
+        v = 3 - w
+        if k < 0.35:
+            steps += rounds(w, 1)
+            saved[w] = True
+        elif pos[v]:
+            items = []
+            for _ in range(rng.randint(1, 4)):
+                r2, c2 = rng.choice(pos[v])
+                kind = rng.choice(["cell", "cell", "cell", "row", "col"])
+                r, c = rng.randint(1, 12), rng.randint(1, 8)
+                items.append((kind, r, c, r2, c2))
+                if kind == "cell":
+                    pos[w].append((r, c))
+            steps.append(imp(w, v, items))
+            nimp += 1
+    steps += rounds(1, 2) + rounds(2, 2)
+    return {"steps": steps}
+
+
 def project(events):
     """Replace the raw bytes of every Save by the independent view of styles.xml."""
     zero = {"fonts": 0, "fills": 0, "borders": 0, "numFmts": 0, "cellXfs": 0, "dxfs": 0}
@@ -284,7 +389,7 @@ def gen_cases(chk):
     rng = chk.rng
     quick = chk.tier == "quick"
     kf = {i: True for i in chk.open_ids}
-    cases = finding_cases()
+    cases = finding_cases() + import_examples()
     nfix = len(cases)
     r = vlib.run_tlc("MC_Styles", "MC_Styles_replay.cfg", workers=4, coverage=False, timeout=3000)
     if not r.ok or not r.replays:
@@ -305,6 +410,28 @@ def gen_cases(chk):
         if key not in seen:
             seen.add(key)
             cases.append({"steps": rp})
+    # two workbook objects: styles imported from one into the other (TLC-simulated and seeded random)
+    nsim2 = 100 if quick else 2500
+    rs2 = vlib.run_tlc("MC_Styles", "MC_Styles_import_sim.cfg", workers=1, coverage=False, simulate=f"num={nsim2}",
+                       extra=["-depth", "60", "-seed", str(chk.seed)], timeout=3000)
+    if rs2.rc != 0 or rs2.violation or not rs2.replays:
+        raise vlib.ToolError("TLC simulation of MC_Styles_import_sim.cfg failed: " + (rs2.violation or rs2.out[-500:]))
+    nimp0 = len(cases)
+    for rp in rs2.replays:
+        key = json.dumps(rp, sort_keys=True)
+        if key not in seen:
+            seen.add(key)
+            cases.append({"steps": rp})
+    nimp1 = len(cases)
+    if not quick:
+        r3 = vlib.run_tlc("MC_Styles", "MC_Styles_import_replay.cfg", workers=4, coverage=False, timeout=3000)
+        if not r3.ok or not r3.replays:
+            raise vlib.ToolError("import replay generation failed: " + (r3.violation or r3.out[-500:]))
+        cases += [{"steps": rp} for rp in rng.sample(r3.replays, min(12000, len(r3.replays)))]
+    nimp2 = len(cases)
+    for _ in range(150 if quick else 3000):
+        cases.append(import_case(rng, kf, rng.randint(1, 10), rng.randint(1, 10)))
+    nimp3 = len(cases)
     n2 = len(cases)
     big = []
     if quick:
@@ -319,11 +446,15 @@ def gen_cases(chk):
     for n in bigplan:
         big.append(workbook_case(rng, n, kf, saves=2 if quick else 3, far=True))
     chk.extra["cases"] = {"finding_examples": nfix, "tlc_paths": n1 - nfix, "tlc_paths_total": len(r.replays),
-                          "tlc_simulated_histories": n2 - n1, "random_workbooks": len(cases) - n2,
+                          "tlc_simulated_histories": nimp0 - n1, "two_workbook_import_histories":
+                              {"examples": len(import_examples()), "tlc_simulated": nimp1 - nimp0,
+                               "tlc_paths_sampled": nimp2 - nimp1, "random": nimp3 - nimp2},
+                          "random_workbooks": len(cases) - n2,
                           "large_workbooks_distinct_styles": [c["n_styles"] for c in big]}
     cases += big
     for i, c in enumerate(cases):
         c["case"] = i
+        normalize(c)
     return cases, len(big)
 
 
@@ -331,6 +462,8 @@ def describe(case, ev, detail):
     if ev is None:
         return detail
     small = {k: v for k, v in ev.items() if k not in ("obs", "cells", "rows", "cols", "names", "hex")}
+    if case and any(st["a"] == "Import" for st in case["steps"]):
+        small["history"] = " ".join(st["a"][0] + str(st.get("w", 1)) for st in case["steps"])
     return f"step {json.dumps(small)}: {detail}"
 
 
@@ -349,9 +482,9 @@ def judge(chk, cases, nbig=0):
                 first[ci] = (off, detail)
         for ci, (off, detail) in first.items():
             # (after an earlier mismatch the specification follows the observation: only a *first* mismatch
-            #  blames the generator.)  "assign": the getters do not show what the setters were just given - the
-            #  reference the property speaks about is then undefined; that is a tool error, not a verdict.
-            if detail.startswith('<<"gen"') or detail.startswith('<<"assign"') or detail.startswith('<<"init"'):
+            #  blames the generator.)  "assign" / "import": the getters do not show what the setters were just given
+            #  - the reference the property speaks about is then undefined; that is a tool error, not a verdict.
+            if detail.startswith(('<<"gen"', '<<"assign"', '<<"import"', '<<"init"')):
                 raise vlib.ToolError(f"generator/driver problem (case {lo + ci}, step {off}): {detail[:600]}")
         chk.process_validation(out, cases[lo:hi], events[lo:hi], "styles", describe)
     return events
@@ -367,6 +500,10 @@ def style_count(case):
     return len(seen)
 
 
+def import_count(case):
+    return sum(len(st["items"]) for st in case["steps"] if st["a"] == "Import")
+
+
 def run(chk):
     vlib.tlc_mc("MC_Styles", "MC_Styles.cfg", workers=4, check=chk, must_take=["Assign", "DoSave", "DoReload"], timeout=3000)
     if chk.tier == "thorough":
@@ -376,17 +513,29 @@ def run(chk):
     if dev.violation is None or "NoMerge" not in dev.violation:
         raise vlib.ToolError("TLC did not refute NoMerge for font keys written without separators: the invariant would be vacuous")
     chk.extra["deviant_design_refuted"] = dev.violation
+    # two workbooks, styles imported from one into the other in every interleaving with their saves and reloads
+    vlib.tlc_mc("MC_Styles", "MC_Styles_import_q.cfg" if chk.tier == "quick" else "MC_Styles_import.cfg", workers=4, check=chk,
+                must_take=["Assign", "DoImport", "DoSave", "DoReload"], timeout=7200, heap="12g")
+    dev2 = vlib.run_tlc("MC_Styles", "MC_Styles_deviant_id.cfg", workers=2, coverage=False)
+    if dev2.violation is None or "NoMerge" not in dev2.violation:
+        raise vlib.ToolError("TLC did not refute NoMerge for number formats looked up by the id they carry: the import "
+                             "scenario would be vacuous")
+    chk.extra["deviant_design_refuted_import"] = dev2.violation
     cases, nbig = gen_cases(chk)
     events = judge(chk, cases, nbig)
     chk.evaluations = len(cases)
     chk.nontrivial = {json.dumps(c["steps"], sort_keys=True) for c in cases if style_count(c) >= 1}
+    chk.extra["cases"]["histories_with_an_import"] = sum(1 for c in cases if import_count(c) >= 1)
     counts = sorted(style_count(c) for c in cases)
     chk.extra["distinct_styles_per_workbook"] = {"min": counts[0], "median": counts[len(counts) // 2], "max": counts[-1]}
     chk.rule = ("a case is a new workbook, one or more batches of style / height / width / hidden assignments to cells, rows "
                 "and columns, and 2-3 rounds of save + reload; cases = the minimal example of every open finding, behaviours of "
                 "the bounded model (<= 2 carriers over the one-attribute-variant palette; quick: a seeded sample of 3000), "
                 "TLC-simulated histories over random styles, seeded random workbooks with 1..60 (quick: 1..40) and 100..600 distinct styles "
-                "(near-duplicates, key-adjacent fonts, adjacent equal columns, grid limits); distinct = different step lists, "
+                "(near-duplicates, key-adjacent fonts, adjacent equal columns, grid limits), and histories over two workbook "
+                "objects in which the Style of a cell of one (fresh or loaded from a file) is set on a cell, row or column of the "
+                "other, both directions, with custom number formats / fonts / fills under the same table ids (examples, "
+                "TLC-simulated, seeded random; thorough: + sampled paths of the bounded model); distinct = different step lists, "
                 "non-trivial = at least one styled carrier")
     i0 = chk.extra["cases"]["finding_examples"]
     chk.sample({"script": cases[i0]["steps"], "observed_after_reload": events[i0][3]["obs"]})
@@ -397,7 +546,7 @@ def run(chk):
         "effective formatting = what the public getters of the style returned by Worksheet::get_style / get_row_dimension / "
         "get_column_dimension_by_number show, a component that is absent read as the default component (DESIGN Appendix A); "
         "colours are compared as (resolved argb, theme index, tint); font family/charset/vertAlign and gradient fills are not varied",
-        "one worksheet; styles are built with the public setters starting from Style::default() (font: from get_font_mut())",
+        "one worksheet per workbook object, at most two workbook objects; styles are built with the public setters starting from Style::default() (font: from get_font_mut())",
         "table sizes are the child counts of fonts/fills/borders/numFmts/cellXfs/dxfs in xl/styles.xml as parsed by python3 "
         "zipfile + ElementTree; NoGrowth compares consecutive saves with no assignment in between",
     ]
@@ -406,4 +555,4 @@ def run(chk):
 def replay(chk, path):
     with open(path) as f:
         rp = json.load(f)
-    judge(chk, [rp["script"]])
+    judge(chk, [normalize(rp["script"])])
